@@ -26,4 +26,16 @@ let () =
   reg "c15.picked_q" (fun () ->
       let p = rd_pk_proteins () in let dm = rd_list (rd_pair rd_str rd_str) () in
       let order = rd_list rd_nat () in let rows = rd_list rd_pk_row () in
-      pr_result (pr_list (pr_pair pr_pk_entry pr_q)) (pk_picked_q p dm order rows))
+      pr_result (pr_list (pr_pair pr_pk_entry pr_q)) (pk_picked_q p dm order rows));
+  (* peptides.match_decoy: ignore_mods, recorded shuffle positions, decoys, targets *)
+  reg "c15.match_decoy" (fun () ->
+      let im = rd_bool () in let perm = rd_list rd_nat () in
+      let ds = rd_list rd_str () in let ts = rd_list rd_str () in
+      pr_result (pr_list (pr_pair pr_str pr_str)) (md_match im perm ds ts));
+  reg "c15.match_steps" (fun () ->
+      let im = rd_bool () in let perm = rd_list rd_nat () in
+      let ds = rd_list rd_str () in let ts = rd_list rd_str () in
+      pr_result (pr_list (pr_pair pr_str (pr_opt pr_str))) (md_steps im perm ds ts));
+  reg "c15.md_key_mods" (fun () -> let s = rd_str () in pr_str (md_key_mods s));
+  reg "c15.md_key_plain" (fun () -> let s = rd_str () in pr_str (md_key_plain s));
+  reg "c15.md_sort_strs" (fun () -> let l = rd_list rd_str () in pr_list pr_str (md_sort_strs l))
